@@ -1364,8 +1364,9 @@ func stage(fd *ast.FuncDecl) string {
 					// go func() { … }(): the worker written in place (the loop variable is not visible to it: no parameter)
 					if lit, ok := g.Call.Fun.(*ast.FuncLit); ok && len(g.Call.Args) == 0 && (lit.Type.Params == nil || len(lit.Type.Params.List) == 0) {
 						usesI := false
+						cnt, _ := isParLoop(src(x.Init) + "; " + src(x.Cond) + "; " + src(x.Post))
 						ast.Inspect(lit.Body, func(n ast.Node) bool {
-							if i, ok := n.(*ast.Ident); ok && i.Name == "i" {
+							if i, ok := n.(*ast.Ident); ok && i.Name == cnt {
 								usesI = true
 							}
 							return true
@@ -1376,7 +1377,7 @@ func stage(fd *ast.FuncDecl) string {
 					}
 					if w != nil {
 						hd := src(x.Init) + "; " + src(x.Cond) + "; " + src(x.Post)
-						if hd != "i := 1; i <= par; i++" && hd != "i := 0; i < par; i++" {
+						if _, ok := isParLoop(hd); !ok {
 							sfail(st, "worker start loop %q does not start exactly par workers", hd)
 						}
 						if addArg != "par" {
@@ -1811,8 +1812,23 @@ func (fn *stFn) collector(b []ast.Stmt) []string {
 			}
 		case *ast.ForStmt:
 			hd := src(x.Init) + "; " + src(x.Cond) + "; " + src(x.Post)
-			if (hd == "i := 1; i <= par; i++" || hd == "i := 0; i < par; i++") && len(x.Body.List) == 1 && acc != "" {
-				if as, ok := x.Body.List[0].(*ast.AssignStmt); ok && as.Tok == token.ASSIGN && len(as.Lhs) == 1 && len(as.Rhs) == 1 && src(as.Lhs[0]) == acc {
+			body := x.Body.List
+			// v := <-ch; acc = m.Combine(acc, v)   is   acc = m.Combine(acc, <-ch)
+			if len(body) == 2 {
+				if d, ok := body[0].(*ast.AssignStmt); ok && d.Tok == token.DEFINE && len(d.Lhs) == 1 && len(d.Rhs) == 1 {
+					if u, ok := d.Rhs[0].(*ast.UnaryExpr); ok && u.Op == token.ARROW {
+						if as, ok := body[1].(*ast.AssignStmt); ok && as.Tok == token.ASSIGN && len(as.Rhs) == 1 {
+							if _, _, args, ok := callName(as.Rhs[0]); ok && len(args) == 2 && src(args[1]) == src(d.Lhs[0]) && src(args[0]) != src(d.Lhs[0]) {
+								c2 := *as.Rhs[0].(*ast.CallExpr)
+								c2.Args = []ast.Expr{args[0], u}
+								body = []ast.Stmt{&ast.AssignStmt{Lhs: as.Lhs, Tok: as.Tok, Rhs: []ast.Expr{&c2}}}
+							}
+						}
+					}
+				}
+			}
+			if _, okp := isParLoop(hd); okp && len(body) == 1 && acc != "" {
+				if as, ok := body[0].(*ast.AssignStmt); ok && as.Tok == token.ASSIGN && len(as.Lhs) == 1 && len(as.Rhs) == 1 && src(as.Lhs[0]) == acc {
 					if r, n, args, ok := callName(as.Rhs[0]); ok && r == fn.monoid && n == "Combine" && len(args) == 2 && src(args[0]) == acc {
 						if u, ok := args[1].(*ast.UnaryExpr); ok && u.Op == token.ARROW {
 							ci, _ := fn.chanIdx(u.X)
